@@ -222,6 +222,22 @@ impl Session {
         let _ = std::fs::write(p, text);
     }
 
+    /// rewrite a file and give it back the modification time it had (what `cp -p`, `rsync -t`, an archive extraction or
+    /// a coarse file-system clock produce)
+    pub fn write_disk_keep_mtime(&self, rel: &str, text: &str) {
+        use std::os::unix::ffi::OsStrExt;
+        use std::os::unix::fs::MetadataExt;
+        let p = self.path(rel);
+        let old = std::fs::metadata(&p).ok().map(|m| (m.atime(), m.atime_nsec(), m.mtime(), m.mtime_nsec()));
+        let _ = std::fs::write(&p, text);
+        if let Some((a, an, m, mn)) = old {
+            if let Ok(c) = std::ffi::CString::new(p.as_os_str().as_bytes()) {
+                let times = [libc::timespec { tv_sec: a, tv_nsec: an }, libc::timespec { tv_sec: m, tv_nsec: mn }];
+                unsafe { libc::utimensat(libc::AT_FDCWD, c.as_ptr(), times.as_ptr(), 0) };
+            }
+        }
+    }
+
     fn send(&mut self, v: Value) {
         self.sent.push(v.clone());
         let body = v.to_string();
